@@ -6,8 +6,8 @@
 (* transcription must never reach "oob" (= an unguarded index in the code)  *)
 (* or "hang".                                                               *)
 (***************************************************************************)
-EXTENDS DecodeMech, TLC
-CONSTANTS Alphabet, MaxLen
+EXTENDS DecodeMech, TLC, Json
+CONSTANTS Alphabet, MaxLen, EmitMax
 VARIABLES data, ty
 vars == <<data, ty>>
 Strings == UNION {[1..n -> Alphabet] : n \in 0..MaxLen}
@@ -23,4 +23,7 @@ NoHang  == R.pc # "hang"
 InsideRdata == R.pc = "ok" => R.next <= Len(data)
 AgreesWithOracle ==
   R.pc = "ok" => LET o == RdRR(data, 0) IN o.ok /\ o.name = R.name /\ o.ty = R.ty /\ o.next = R.next
+(* spec -> implementation: the record behind a response header with ANCOUNT 1, as a datagram for the real decoder *)
+Header == <<0, 0, 132, 0, 0, 0, 0, 1, 0, 0, 0, 0>>
+EmitCase == (Len(data) <= 11 + EmitMax) => PrintT(<<"CASE", ToJson([b |-> Header \o data])>>)
 =============================================================================
